@@ -79,9 +79,9 @@ fn c13_stash_seq4() {
 }
 
 #[kani::proof]
-#[kani::unwind(12)]
-fn c13_stash_seq10() {
-    c13_stash_seq_body::<10>();
+#[kani::unwind(10)]
+fn c13_stash_seq6() {
+    c13_stash_seq_body::<6>();
 }
 
 // c13_stash_step: ONE operation from an arbitrary valid raw state with arbitrary cookie contents,
